@@ -81,3 +81,22 @@ Definition chk_absmax (c : tensor Z * qtype * option Z * res (tensor Z)) : bool 
   let '(t, q, axis, expected) := c in
   res_t_eqb (s <- absmax_scale (dec f t) q axis ;; Ok (enc f s)) expected.
 End Checks.
+
+(* ---- exhaustive 16-bit sweeps, compared by per-block checksums --------------------------------- *)
+Definition cksum (l : list Z) : Z := fold_left (fun acc v => (acc * 31 + v + 7) mod 1000000007) l 0.
+
+Section Sweep.
+Variable f : fmt.
+Variable sym_forward : tensor (fl f) -> qtype -> option Z -> tensor (fl f) -> res (qbytes (fl f)).
+Variable qbytes_dequantize : qbytes (fl f) -> res (tensor (fl f)).
+(* all 65536 bit patterns of a 16-bit format, 256 blocks of 256, one scalar scale *)
+Definition sweep16 (q : qtype) (sbits : Z) : list Z :=
+  let s := dec f (T [] [sbits]) in
+  map (fun blk =>
+         let t := T [256] (map (fun i => blk * 256 + i) (zupto 256)) in
+         match (b <- sym_forward (dec f t) q None s ;; d <- qbytes_dequantize b ;;
+                Ok (data (codes f (q_storage q) (qb_data b)) ++ data (enc f d))) with
+         | Ok l => cksum l
+         | Err _ => -1
+         end) (zupto 256).
+End Sweep.
